@@ -93,6 +93,11 @@ impl<'a> G<'a> {
             3 => "/**/".into(),
             4 => format!(" \\{}", self.eol),
             5 => format!(" \\{} ", self.eol),
+            // a comment over several lines whose text looks like directives (it is one blank in C)
+            6 if self.r.chance(1, 4) => {
+                self.kinds.add("spelling:multi-line-comment");
+                format!(" /* m{e}#endif{e}#else l */ ", e = self.eol)
+            }
             _ => " ".into(),
         }
     }
@@ -287,12 +292,20 @@ impl<'a> G<'a> {
 
     /// `#name args` with random spelling
     pub fn directive(&mut self, name: &str, args: &str) -> String {
-        let lead = match self.r.below(10) {
-            0 => " ",
-            1 => "\t",
-            2 => "  ",
-            3 => "/* c */",
-            4 => " /**/ ",
+        let lead_ml = format!("/* a{e} #if 1{e} */ ", e = self.eol);
+        let trail_ml = format!(" /* t{e}#else{e}*/", e = self.eol);
+        let trail_splice = format!(" // c \\{e}#endif", e = self.eol);
+        let lead = match self.r.below(40) {
+            0..=3 => " ",
+            4..=7 => "\t",
+            8..=11 => "  ",
+            12..=15 => "/* c */",
+            16..=19 => " /**/ ",
+            // comments over several lines, with text that looks like directives
+            20 => {
+                self.kinds.add("spelling:multi-line-comment");
+                lead_ml.as_str()
+            }
             _ => "",
         };
         let mid = match self.r.below(10) {
@@ -302,12 +315,20 @@ impl<'a> G<'a> {
             3 => format!(" \\{}", self.eol),
             _ => String::new(),
         };
-        let trail = match self.r.below(10) {
-            0 => " ",
-            1 => " // c",
-            2 => " /* c */",
-            3 => "\t",
-            4 => "//",
+        let trail = match self.r.below(40) {
+            0..=3 => " ",
+            4..=7 => " // c",
+            8..=11 => " /* c */",
+            12..=15 => "\t",
+            16..=19 => "//",
+            20 => {
+                self.kinds.add("spelling:multi-line-comment");
+                trail_ml.as_str()
+            }
+            21 => {
+                self.kinds.add("spelling:spliced-line-comment");
+                trail_splice.as_str()
+            }
             _ => "",
         };
         let sep = if args.is_empty() {
